@@ -11,7 +11,7 @@ RULE = ("Batches of 2-10 reactions from C01's generator, 1/5 of the batches with
         "argument are compared with counts recomputed from the returned rows: reaction_cnt == #inputs; balanced_cnt "
         "== #rows labelled input-balanced; confident_cnt == #rows solved by mcs-based; mcs_applied == #rows neither "
         "input-balanced nor rule-based nor declined as malformed; rb_solved <= rb_applied; mcs_solved <= mcs_applied; "
-        "rb_solved >= #rule-based rows; mcs_solved >= #mcs-based rows. One shard drives the CLI (cmd_run.impute in-process) "
+        "rb_solved >= #rule-based rows; mcs_solved >= #mcs-based rows. Two shards re-run each batch at thresholds equal to / one ulp above / 0.0004 around the confidences it produced. One shard drives the CLI (cmd_run.impute in-process) "
         "and reads <out>.stats. Non-trivial = run split into >=2 batches with >=2 outcome classes; distinct = distinct "
         "(inputs, batch size, threshold).")
 ASSUMPTIONS = [
@@ -30,6 +30,9 @@ def _mixed(draw, base):
 
 
 def _rx(spec):
+    if spec.get("boundary"):
+        return st.one_of(gen.mcs_prone_reaction(25, 4), gen.mcs_prone_reaction(25, 4),
+                         pp.closed_shell_rx(gen.any_reaction(max_heavy=25, max_mols=4, weights=(5, 4, 2, 1))))
     base = pp.closed_shell_rx(gen.any_reaction(max_heavy=30, max_mols=4, weights=(5, 4, 2, 1)))
     if spec.get("malformed"):
         return _mixed(base)
@@ -88,6 +91,36 @@ def check_cli(case, spec=None):
     return res
 
 
+def check_boundary(case, spec=None):
+    """statistics at thresholds equal to the confidences the batch itself produced (and one ulp / 0.0005 around them):
+    the counter and the rows must be decided by the same comparison"""
+    import math
+    from ..runner import CaseResult
+    res = CaseResult()
+    rows, stats, err = pp.execute(dict(case, threshold=0))
+    if err or len(rows) != len(case["reactions"]) or pp.has_unplanned_timeout(rows):
+        res.inconclusive = "baseline run"
+        return res
+    confs = sorted({r["confidence"] for r in rows if r.get("solved_by") == "mcs-based" and isinstance(r.get("confidence"), float)})
+    n = 0
+    for c in confs[:4]:
+        for t in (c, math.nextafter(c, 2.0), c - 0.0004, c + 0.0004, round(c, 3)):
+            if not 0 <= t <= 1:
+                continue
+            c2 = dict(case, threshold=t)
+            rows2, stats2, err2 = pp.execute(c2)
+            if err2 or len(rows2) != len(case["reactions"]) or pp.has_unplanned_timeout(rows2):
+                res.inconclusive = "timeout text"
+                return res
+            judge(c2, rows2, stats2, res)
+            n += 1
+            res.nt_keys.append(case_key([case["reactions"], case.get("batch_size"), t]))
+    res.nontrivial = False
+    res.evals = max(1, n)
+    res.tag("boundary-thresholds:%d" % min(n, 9))
+    return res
+
+
 def shards(tier):
     q = tier == "quick"
     out = []
@@ -97,6 +130,9 @@ def shards(tier):
         out.append({"name": "hyp-malformed:%d" % i, "kind": "hyp", "malformed": True, "examples": 70 if q else 800})
     for i in range(2):
         out.append({"name": "hyp-cli:%d" % i, "kind": "hyp", "cli": True, "examples": 40 if q else 400})
+    for i in range(2):
+        out.append({"name": "hyp-boundary:%d" % i, "kind": "hyp", "boundary": True, "examples": 25 if q else 300,
+                    "weights": (8, 1, 0, 0), "max_rx": 5})
     out.append({"name": "hyp-njobs", "kind": "hyp", "n_jobs": (2, 3, 4, 16), "examples": 25 if q else 200, "procs": 4, "min_rx": 4, "max_rx": 12})
     if not q:
         for i in range(4):
@@ -105,6 +141,8 @@ def shards(tier):
 
 
 def _check(spec):
+    if spec.get("boundary"):
+        return lambda c: check_boundary(c, spec)
     return (lambda c: check_cli(c, spec)) if spec.get("cli") else (lambda c: M.check_case(c, spec))
 
 
